@@ -91,7 +91,12 @@ RenormVerdict(e) ==
       nf1 == AllFinite(f, out) /\ NF(f, out)
       nfbad == dom1 /\ p1 = {} /\ ~nf1 /\ dom2 /\ p2 = {} /\ ~NF(f, e.out2)
       want == IF functional THEN Pad(f, Take(ref1.out, limit), Min(limit, Len(a))) ELSE Take(ref1.out, limit)
-  IN  [fails |-> p1 \cup p2 \cup (IF nfbad THEN {IF sorted THEN "nf_sorted_input" ELSE "nf_unsorted_input"} ELSE {}),
+      \* the known behaviour for unsorted input: two passes are not enough, but ITERATING the renormalisation
+      \* (Len(a) + 1 further passes, logged as out3) reaches the normal form; a renormalisation that never gets
+      \* there is keyed apart
+      third == Has(e, "out3") /\ e.out3 # <<>> /\ AllFinite(f, e.out3) /\ NF(f, e.out3)
+  IN  [fails |-> p1 \cup p2 \cup (IF nfbad THEN {IF sorted THEN "nf_sorted_input"
+                                               ELSE IF third THEN "nf_unsorted_input" ELSE "nf_unsorted_input_never"} ELSE {}),
        notes |-> (IF ~novf1 THEN {"ood_overflow"} ELSE {})
                  \cup (IF novf1 /\ e.fast /\ ~(ref1.ok /\ sorted) THEN {"ood_fast"} ELSE {})
                  \cup (IF novf1 /\ e.fast /\ ~ref1.ok /\ sorted /\ AllFinite(f, out)
